@@ -211,10 +211,15 @@ def run(ctx) -> int:
 
     counts = {"options": 0, "inline": 0, "contexts": 0}
 
+    corner = [(configs.STANDARD[ci], d) for d in docs.corner_docs() for ci in (2, 4)]
+
     def probe(r, n_opt, n_inl, n_ctx):
-        for k in range(n_opt):
-            cfg = configs.STANDARD[k % len(configs.STANDARD)] if k % 2 else configs.random_config(r)
-            src = docs.random_doc(r) if k % 4 else r.choice(VOID_DOCS) + (docs.random_doc(r) if k % 8 else "")
+        for k in range(-len(corner), n_opt):
+            if k < 0:
+                cfg, src = corner[k]     # the hand-made corner documents first
+            else:
+                cfg = configs.STANDARD[k % len(configs.STANDARD)] if k % 2 else configs.random_config(r)
+                src = docs.random_doc(r) if k % 4 else r.choice(VOID_DOCS) + (docs.random_doc(r) if k % 8 else "")
             counts["options"] += 1
             d = options_property(cfg, src)
             if d:
